@@ -42,8 +42,9 @@ def rand_args(rng):
         else:
             args.append(realize(gen.rand_node(rng, 2)))
     kw = {}
-    for _ in range(rng.randint(0, 3)):
-        kw[rng.choice(["class_", "id", "style", "data_y", "for_", "x"])] = rng.choice(["k", HTML("&"), False, True, 7, "a b"])
+    for _ in range(rng.randint(0, 4)):
+        kw[rng.choice(["class_", "id", "style", "data_y", "for_", "x", "href", "src", "alt", "type", "name", "value", "title", "lang", "rel",
+                       "target", "width", "height", "role", "action", "method", "content", "charset"])] = rng.choice(["k", HTML("&"), False, True, 7, "a b"])
     return args, kw
 
 
@@ -78,7 +79,7 @@ def run(tier: str) -> int:
                                  "functions": n_fn, "shortcuts": len(tops), "exhaustive": True})
     ck.correspond(holds=False)
     # the statement itself, evaluated on the implementation for every function
-    reps = 3 if tier == "quick" else 40
+    reps = 8 if tier == "quick" else 60
     targets = [(m, n, f) for m, mod in mods.items() for n, f in exported_functions(mod)]
     targets += [("top", n, getattr(htmltools, n)) for n in tops if hasattr(htmltools, n)]
     for mname, name, f in targets:
